@@ -70,6 +70,11 @@ func (w *webhookExecutorEtag) adjustResponse(
 		if !cacheEntryExists {
 			return nil, fmt.Errorf("cannot find cached response for cache key: %s", cacheKey)
 		}
+		if cacheEntry.Etag != request.Header.Get(headerIfNoneMatch) {
+			// A concurrent call about the same object replaced the entry while this
+			// request was in flight: the cached body belongs to another ETag.
+			return nil, fmt.Errorf("cached response for cache key %s was replaced while the request was in flight", cacheKey)
+		}
 		return cacheEntry.Response, nil
 	}
 	eTag := response.Header.Get(headerETag)
